@@ -423,7 +423,7 @@ def describe(run, trace, badl, clause):
 def execute(run):
     """run: {"case", "ops", "drain", "preload"} -> trace record (bodydrv.run_case)."""
     return bd.run_case(run["case"], [tuple(x) for x in run["ops"]], tuple(run["drain"]) if run.get("drain") else None,
-                       preload=bool(run.get("preload")),
+                       preload=bool(run.get("preload")), after=[tuple(x) for x in run.get("after") or ()],
                        deadline=float(run.get("deadline") or os.environ.get("VERIF_CASE_DEADLINE") or 300.0))
 
 
@@ -557,7 +557,7 @@ def run_all(rep, pool, runs, findings, counters, label, per=400):
         counters["generr"] += o["generr"]
         for x in o["out"]:
             run = sh[x["i"]]
-            slim_run = {k: run.get(k) for k in ("case", "ops", "drain", "preload", "deadline")}
+            slim_run = {k: run.get(k) for k in ("case", "ops", "drain", "preload", "deadline", "after")}
             rep.traces += 1
             rep.evaluations += x["nev"]
             if x["nontriv"] is not None:
@@ -612,5 +612,5 @@ def replay_case(rep, pid, path):
     rep.nontrivial.update({"replay", "case"})
     rep.states = rep.states or (r.distinct if r else 1)
     rep.transitions = rep.transitions or (r.generated if r else 1)
-    judge(rep, findings, {k: run.get(k) for k in ("case", "ops", "drain", "preload", "deadline")}, t, verdicts[0], counters)
+    judge(rep, findings, {k: run.get(k) for k in ("case", "ops", "drain", "preload", "deadline", "after")}, t, verdicts[0], counters)
     finish(rep, counters)
